@@ -188,6 +188,7 @@ class Spec:
     extra: int = 0  # filler bytes served after ``body`` (over-long / oversized bodies, never materialised at once)
     pre_delay: float = 0.0  # virtual seconds before the response head arrives
     pre_exc: BaseException | None = None  # raised instead of returning a response
+    connect_stall: float = 0.0  # the TCP connect hangs this long (virtual seconds) before anything else happens
     chunk_cap: int | None = None  # the stream hands out at most this many bytes per read
     chunk_delay: float = 0.0  # virtual seconds before every body read
     fail_at: int | None = None  # body offset at which ``fail_exc`` is raised
@@ -413,6 +414,17 @@ class FakeSession:
                 raise RuntimeError("Session is closed")
             c = net.new_contact(method, url, headers, self._attempt, internal)
             spec = net.handler(c)
+            if spec.connect_stall:
+                # what aiohttp does with a connect that does not complete: with a sock_connect bound in the session's
+                # ClientTimeout it gives up after that long with ConnectionTimeoutError - whose text is the FULL url, query
+                # string included; without one the stall just eats into the total deadline
+                sc = getattr(getattr(self, "client_timeout", None), "sock_connect", None)
+                net.fired("connect-stall")
+                if sc is not None and spec.connect_stall > sc and net.loop.time() + sc < c.deadline:
+                    await asyncio.sleep(sc)
+                    net.fired("connect-timeout:sock_connect")
+                    raise aiohttp.ConnectionTimeoutError(f"Connection timeout to host {url}")
+                await net.pause(c, spec.connect_stall)
             await net.pause(c, spec.pre_delay)
             if spec.pre_exc is not None:
                 raise spec.pre_exc
@@ -524,8 +536,14 @@ class _AsyncioProxy:
     """Stands in for the ``asyncio`` module global of external_fetch.py: only ``run_coroutine_threadsafe`` differs
     (there is no second thread: the coroutine runs to completion on the virtual loop, in the caller)."""
 
+    def __init__(self, loop: Any = None) -> None:
+        self._loop = loop
+
     def __getattr__(self, name: str) -> Any:
         return getattr(asyncio, name)
+
+    def new_event_loop(self) -> Any:
+        return self._loop  # the pool's "background loop" is the virtual loop of this run
 
     @staticmethod
     def run_coroutine_threadsafe(coro: Any, loop: Any) -> "concurrent.futures.Future[Any]":
@@ -567,17 +585,30 @@ def installed(loop: VirtualLoop, net: Net, decode_calls: list[dict[str, Any]]) -
     import vgi_rpc._codec as codec
     import vgi_rpc.external_fetch as ef
 
-    def ensure_pool(config: Any) -> Any:
-        pool = config._pool
-        if pool.loop is None or pool.loop.is_closed():
-            pool.loop = loop
-            pool.session = None
-        if pool.session is None:
-            pool.session = net.new_session()
-        return pool
+    # The REAL _ensure_pool / _reset_session run: they decide the ClientTimeout every session gets.  Only their plumbing is
+    # re-pointed: "a new event loop" is the virtual loop, "its thread" is never started (coroutines run in the caller, see
+    # _AsyncioProxy), and the session factory returns a FakeSession that remembers the timeout configuration it was given.
+    class _NoThread:
+        def __init__(self, *a: Any, **k: Any) -> None:
+            pass
+
+        def start(self) -> None:
+            pass
+
+        def join(self, timeout: float | None = None) -> None:
+            pass
+
+        def is_alive(self) -> bool:
+            return True
+
+    import threading as _real_threading
+
+    thread_ns = types.SimpleNamespace(Thread=_NoThread, Lock=_real_threading.Lock, RLock=_real_threading.RLock)
 
     async def create_session(timeout: Any) -> FakeSession:
-        return net.new_session()
+        sess = net.new_session()
+        sess.client_timeout = timeout  # type: ignore[attr-defined]
+        return sess
 
     real_decompress = codec.decompress
 
@@ -594,14 +625,14 @@ def installed(loop: VirtualLoop, net: Net, decode_calls: list[dict[str, Any]]) -
         rec["passthrough"] = out is data  # identity: nothing was decoded or allocated
         return out
 
-    saved = {k: getattr(ef, k) for k in ("time", "asyncio", "_ensure_pool", "_create_session")}
+    saved = {k: getattr(ef, k) for k in ("time", "asyncio", "threading", "_create_session")}
     root = logging.getLogger("vgi_rpc")
     saved_log = (root.level, root.propagate, root.disabled)
     sink = LogSink()
     try:
         ef.time = types.SimpleNamespace(monotonic=loop.time, time=loop.time, perf_counter=loop.time)  # type: ignore[assignment]
-        ef.asyncio = _AsyncioProxy()  # type: ignore[assignment]
-        ef._ensure_pool = ensure_pool  # type: ignore[assignment]
+        ef.asyncio = _AsyncioProxy(loop)  # type: ignore[assignment]
+        ef.threading = thread_ns  # type: ignore[assignment]
         ef._create_session = create_session  # type: ignore[assignment]
         codec.decompress = observed_decompress  # type: ignore[assignment]
         root.addHandler(sink)
